@@ -535,6 +535,9 @@ pub fn describe_error(e: BoxError) -> ErrOut {
 }
 
 fn to_datetime(now: crate::rm::time::Inst) -> DateTime<Utc> {
+    if now.s == i64::MIN {
+        return DateTime::<Utc>::MIN_UTC;
+    }
     DateTime::<Utc>::from_timestamp(now.s, now.ns).unwrap_or(DateTime::<Utc>::MAX_UTC)
 }
 
